@@ -93,6 +93,13 @@ def gen_request(ch, cfg, v1):
         kind = "hash"
     else:
         kind = ch.pick(["legacy", "segwit", "hash"], "kind")
+    # the device signs authorised (tx + receipt) requests on the BTC / tBTC keys and plain hashes on
+    # the other four; one request in eight asks for the wrong kind of signature for its key (the device
+    # refuses at the path step)
+    if ch.draw(8, "path.wrong-kind") != 1:
+        i = PATHS.index(path)
+        path = PATHS[2 + i % 4] if kind == "hash" else PATHS[i % 2]
+        pb = path_bytes(path)
     info = {"kind": kind, "path": path}
     if kind == "hash":
         h = ch.bytes(32, "hash")
